@@ -1076,6 +1076,7 @@ func protoCmd(args []string) error {
 	suffixViews := fs.Int("suffix", 12, "views of the synchronous suffix")
 	noByz := fs.Bool("nobyz", false, "crash faults only (C05)")
 	only := fs.String("only", "", "play only this scenario of the library (late-leader, laggard)")
+	lagViews := fs.Int("lagviews", 0, "long-laggard: number of views the laggard is cut off for (0: 10..14)")
 	faultFree := fs.Int("faultfree", 0, "every k-th run is fault-free and synchronous from the start (C05)")
 	_ = fs.Parse(args)
 	o, err := newNDJSON(*out)
@@ -1232,6 +1233,9 @@ func protoCmd(args []string) error {
 				c = hon[rng.Intn(len(hon))]
 			}
 			last := 10 + rng.Intn(5)
+			if *lagViews > 0 {
+				last = *lagViews + rng.Intn(5)
+			}
 			if *only == "deaf-laggard" {
 				// ... variant "deaf laggard": when the other replica has fallen silent, the laggard is reconnected, but what was held back
 				// for it is lost and for a while its block requests fail: it receives the timeouts of the others -- who are stuck and can
